@@ -7,6 +7,8 @@ import (
 	"regexp"
 	"strconv"
 	"strings"
+	"sync"
+	"unicode/utf8"
 
 	textwire "github.com/textwire/textwire/v2"
 )
@@ -22,6 +24,7 @@ type expectation struct {
 	Why  string   `json:"why"`
 	Line int      `json:"line"`
 	Has  []string `json:"has"`
+	Outs []string `json:"outs"`
 }
 
 type renderCase struct {
@@ -60,6 +63,20 @@ func judgeRender(res *Result, exp expectation, out string, err error) {
 			res.Msg = fmt.Sprintf("want %q got %q", want, out)
 			res.Got = map[string]any{"out": out}
 		}
+	case "oneof":
+		res.Stats["nontrivial"] = 1
+		if err != nil {
+			res.Status, res.Kind = "viol", "wrong-error"
+			res.Msg = fmt.Sprintf("want one of %q, got error %s", exp.Outs, firstLines(err.Error(), 2))
+			return
+		}
+		for _, o := range exp.Outs {
+			if out == expandMarkers(o) {
+				return
+			}
+		}
+		res.Status, res.Kind = "viol", "wrong-output"
+		res.Msg = fmt.Sprintf("want one of %q got %q", exp.Outs, out)
 	case "err":
 		res.Stats["nontrivial"] = 1
 		if err == nil {
@@ -102,10 +119,49 @@ func renderFamily(raw json.RawMessage) Result {
 		return res
 	}
 	src := expandMarkers(c.Src)
-	_ = os.Getenv
+	if os.Getenv("TWH_PROP") == "C11" {
+		registerShadows()
+	}
 	out, rerr := textwire.EvaluateString(src, data)
 	judgeRender(&res, c.Expect, out, rerr)
+	if res.Status == "ok" && os.Getenv("TWH_PROP") == "C11" && rerr == nil && utf8.ValidString(src) && !utf8.ValidString(out) {
+		res.Status, res.Kind = "viol", "invalid-utf8"
+		res.Msg = fmt.Sprintf("valid UTF-8 input produced invalid UTF-8 output %q", out)
+	}
+	if res.Status == "ok" && os.Getenv("TWH_PROP") == "C09" && rerr != nil {
+		// C09: errors raised during evaluation carry the line of the construct
+		res.Stats["nontrivial"] = 1
+		if line, _, ok := errLinePath(rerr); !ok || line < 1 {
+			res.Status, res.Kind = "viol", "error-without-line"
+			res.Msg = "evaluation error without a line: " + firstLines(rerr.Error(), 2)
+		}
+	}
 	return res
 }
 
 func init() { families["render"] = renderFamily }
+
+// C11: "a built-in name takes precedence over a custom function of the same name". Custom functions returning a
+// sentinel are registered under the name of every built-in of their own receiver type; the contracts must still hold.
+var shadowOnce sync.Once
+
+func registerShadows() {
+	shadowOnce.Do(func() {
+		for _, n := range []string{"len", "split", "raw", "trim", "trimRight", "trimLeft", "upper", "lower", "capitalize",
+			"reverse", "contains", "truncate", "decimal", "at", "first", "last", "repeat"} {
+			textwire.RegisterStrFunc(n, func(s string, args ...any) string { return "CUSTOM" })
+		}
+		for _, n := range []string{"len", "join", "rand", "reverse", "slice", "shuffle", "contains", "append", "prepend"} {
+			textwire.RegisterArrFunc(n, func(a []any, args ...any) []any { return []any{"CUSTOM"} })
+		}
+		for _, n := range []string{"int", "str", "abs", "ceil", "floor", "round"} {
+			textwire.RegisterFloatFunc(n, func(f float64, args ...any) float64 { return -777 })
+		}
+		for _, n := range []string{"float", "abs", "str", "len", "decimal"} {
+			textwire.RegisterIntFunc(n, func(i int, args ...any) int { return -777 })
+		}
+		for _, n := range []string{"binary", "then"} {
+			textwire.RegisterBoolFunc(n, func(b bool, args ...any) bool { return !b })
+		}
+	})
+}
